@@ -124,10 +124,14 @@ func (k *checker) useExpr(e hcl.Expression, flavour string) {
 		_, d := e.Value(nil)
 		k.checkDiags(d, "eval")
 	})
+	// positions inside the template / traversal of a JSON string are computed over the decoded
+	// text (json/structure.go: "this won't produce exactly the right result"); like the
+	// diagnostics of such a template they are judged only when raw and decoded text coincide
+	approx := flavour == "JSON" && k.jsonApprox
 	k.guard("Variables() of an error-free "+flavour+" expression", func() {
 		for _, tr := range e.Variables() {
 			for _, st := range tr {
-				if st != nil {
+				if st != nil && !approx {
 					k.checkRange(st.SourceRange(), "Variables()", "step.SrcRange")
 				}
 			}
@@ -156,15 +160,17 @@ func (k *checker) useExpr(e hcl.Expression, flavour string) {
 			k.checkDiags(d, "static")
 		}
 		if call, d := hcl.ExprCall(e); !d.HasErrors() && call != nil {
-			k.checkRange(call.NameRange, "ExprCall()", "NameRange")
-			k.checkRange(call.ArgsRange, "ExprCall()", "ArgsRange")
+			if !approx {
+				k.checkRange(call.NameRange, "ExprCall()", "NameRange")
+				k.checkRange(call.ArgsRange, "ExprCall()", "ArgsRange")
+			}
 		} else {
 			k.checkDiags(d, "static")
 		}
 		tr, d := hcl.AbsTraversalForExpr(e)
 		k.checkDiags(d, "static")
 		for _, st := range tr {
-			if st != nil {
+			if st != nil && !approx {
 				k.checkRange(st.SourceRange(), "AbsTraversalForExpr()", "step.SrcRange")
 			}
 		}
